@@ -12,6 +12,7 @@ P(e) ==
   IF e.kind = "value" /\ ~e.dec THEN "C07:encoding_of_a_value_does_not_decode"
   ELSE IF e.kind = "value" /\ ~e.roundtrip THEN "C07:value_changed_by_encode_then_decode"
   ELSE IF e.dec /\ IsConsensus(e.t) /\ ~e.reenc_equal THEN "C07:decoded_bytes_are_not_the_single_canonical_encoding"
+  ELSE IF e.dec /\ IsConsensus(e.t) /\ ~e.same_enc THEN "C07:same_value_accepted_under_two_encodings"
   ELSE IF e.dec /\ ~e.id_equal THEN "C07:id_is_not_double_sha256_of_canonical_encoding"
   ELSE ""
 M(e) ==
